@@ -450,6 +450,22 @@ impl Gen<'_> {
 
     fn obj_expr(&mut self, fields: &[(String, Ty)], d: usize) -> Expr {
         let mut props = vec![];
+        // Start from a spread of an object in scope that has exactly these
+        // fields; the explicit entries after it replace the inlined ones.
+        if !fields.is_empty() && self.t.chance(1, 6) {
+            let want = Ty::Obj(fields.to_vec());
+            let cands: Vec<VarInfo> = self.vars_of(&|t| *t == want);
+            if !cands.is_empty() {
+                let c = cands[self.t.pick(cands.len())].clone();
+                props.push(Prop::Single{e: var(&c.name), spread: true, collect: false});
+                let keep = self.t.pick(fields.len() + 1);
+                for (k, ty) in fields.iter().take(keep) {
+                    let v = self.expr(ty, d.saturating_sub(1));
+                    props.push(Prop::Pair(string(k), v));
+                }
+                return obj(props);
+            }
+        }
         // Optionally start from a spread of an object with a subset of keys.
         for (k, ty) in fields {
             let v = self.expr(ty, d.saturating_sub(1));
@@ -622,7 +638,7 @@ impl Gen<'_> {
     // Compositions that individual statement kinds rarely produce by chance.
     fn idiom(&mut self, out: &mut Vec<Stmt>) {
         let d = self.cfg.expr_depth;
-        match self.t.pick(8) {
+        match self.t.pick(11) {
             0 | 1 => {
                 // Closures created in a loop body over a body-level variable,
                 // kept outside the loop and called afterwards.
@@ -833,6 +849,50 @@ impl Gen<'_> {
                 out.push(fn_decl(&f, vec![var(&p)], false, body));
                 self.declare(&f, Ty::Opaque, false);
                 out.push(print(call(var(&f), vec![int(self.t.range(0, 5))])));
+            },
+            8 => {
+                // Object shorthand: `{a, "k": v, c}` from variables in scope,
+                // then read back through both access paths.
+                let a = self.fresh("sa");
+                let c = self.fresh("sc");
+                let ta = self.small_ty(1);
+                let ea = self.expr(&ta, d - 1);
+                let ec = self.expr(&Ty::Int, d - 1);
+                out.push(declare(var(&a), ea));
+                out.push(declare(var(&c), ec));
+                self.declare(&a, ta.clone(), true);
+                self.declare(&c, Ty::Int, true);
+                let o = self.fresh("sh");
+                let mid = self.expr(&Ty::Str, 0);
+                out.push(declare(var(&o), obj(vec![
+                    Prop::Single{e: var(&c), spread: false, collect: false},
+                    Prop::Pair(string("k"), mid),
+                    Prop::Single{e: var(&a), spread: false, collect: false},
+                ])));
+                self.declare(&o, Ty::Obj(vec![(a.clone(), ta), ("k".to_string(), Ty::Str), (c.clone(), Ty::Int)]), false);
+                out.push(print(var(&o)));
+                out.push(op_assign(var(&c), Op::Sum, int(1)));
+                out.push(print(prop(var(&o), &c)));
+            },
+            9 => {
+                // Functions are values: alias a function variable, pass a
+                // callback, call through both.
+                let f = self.fresh("hf");
+                let g = self.fresh("hg");
+                let ap = self.fresh("apply");
+                let k = self.t.range(1, 9);
+                out.push(fn_decl(&f, vec![var("hx")], false, vec![ret(bin(Op::Mul, var("hx"), int(k)))]));
+                out.push(declare(var(&g), var(&f)));
+                out.push(fn_decl(&ap, vec![var("cb"), var("cx")], false, vec![ret(call(var("cb"), vec![call(var("cb"), vec![var("cx")])]))]));
+                self.declare(&f, Ty::Opaque, false);
+                self.declare(&g, Ty::Opaque, false);
+                self.declare(&ap, Ty::Opaque, false);
+                let x = self.expr(&Ty::Int, d - 1);
+                out.push(print(call(var(&g), vec![x])));
+                out.push(print(bin(Op::RefEq, var(&f), var(&g))));
+                let y = self.t.range(0, 5);
+                out.push(print(call(var(&ap), vec![var(&g), int(y)])));
+                out.push(print(call(var(&ap), vec![func(vec![var("ax")], false, vec![ret(bin(Op::Sum, var("ax"), int(k)))]), int(y)])));
             },
             _ => {
                 // A function that assigns to its parameter and mutates the
@@ -1095,6 +1155,10 @@ impl Gen<'_> {
                     let take = if collect { self.t.pick(fields.len() + 1) } else { fields.len() };
                     let mut props = vec![];
                     for (k, fty) in fields.iter().take(take) {
+                        if collect && self.t.chance(1, 5) {
+                            props.push(Prop::Pair(string(k), var("_")));
+                            continue;
+                        }
                         let nm = self.fresh("d");
                         self.declare(&nm, fty.clone(), true);
                         props.push(Prop::Pair(string(k), var(&nm)));
@@ -1126,7 +1190,12 @@ impl Gen<'_> {
                             1 => {
                                 let a = self.t.pick(*n);
                                 let b = a + 1 + self.t.pick(*n - a);
-                                let r = self.expr(&Ty::List(e.clone(), b - a), d - 1);
+                                let r = if **e == Ty::Str && self.t.chance(1, 3) {
+                                    // A string on the right: taken byte-wise.
+                                    string(&"abcdefgh"[..b - a])
+                                } else {
+                                    self.expr(&Ty::List(e.clone(), b - a), d - 1)
+                                };
                                 let (ea, eb) = (if a == 0 && self.t.chance(1, 2) { None } else { Some(int(a as i64)) }, if b == *n && self.t.chance(1, 2) { None } else { Some(int(b as i64)) });
                                 out.push(assign(range_index(var(&v.name), ea, eb), r));
                             },
@@ -1140,6 +1209,15 @@ impl Gen<'_> {
                         let (k, fty) = fields[self.t.pick(fields.len())].clone();
                         if matches!(fty, Ty::Fn(_)) {
                             out.push(print(string("fnfield")));
+                            return;
+                        }
+                        if self.t.chance(1, 5) && printable(&v.ty) {
+                            // A key the object does not have yet.
+                            let nk = ["extra", "Z", "a b", "", "k2"][self.t.pick(5)];
+                            let val = self.expr(&Ty::Int, d - 1);
+                            let target = if is_ident(nk) && self.t.chance(1, 2) { prop(var(&v.name), nk) } else { index(var(&v.name), string(nk)) };
+                            out.push(assign(target, val));
+                            out.push(print(var(&v.name)));
                             return;
                         }
                         let r = self.expr(&fty, d - 1);
